@@ -159,9 +159,13 @@ def rule_keep_unsynchronized(ctx):
         # p_jh where the guard of the restore (is_synchronized == 0) does not hold, i.e. possibly before p_jh exists.
         pc = pathcond.conditions(fn)
         by = {}
+        import re as _re2
+        # atoms that are the outcome of a call (`!reb_integrator_whfast_init(r)`, an error return of a helper) guard
+        # non-recoverable error exits; they are not part of the pairing
+        is_call_atom = lambda a_: bool(_re2.match(r'^!?\(?[A-Za-z_]\w*\(.*\)\)?$', a_))
         for e in walk(cfront.body(fn)):
             if e.get('kind') == 'CallExpr' and callee_name(e) in ('malloc', 'memcpy', 'free'):
-                by.setdefault(callee_name(e), []).append(frozenset(pc.get(id(e), ())))
+                by.setdefault(callee_name(e), []).append(frozenset(a_ for a_ in pc.get(id(e), ()) if not is_call_atom(a_)))
         anchor(len(by.get('malloc', [])) == 1 and len(by.get('free', [])) >= 1, '%s: scratch malloc and free' % fname)
         n9 += 1
         acq, rel = by['malloc'][0], by['free']
@@ -314,7 +318,8 @@ def rule_cache_invalidation(ctx):
     sites must be reached when that integrator runs in deferred mode (its safe_mode = 0, synchronised at the site)."""
     itu = cfront.load_tu('integrator.c')
     disp = {}
-    for sw in walk(cfront.body(itu.func('reb_integrator_part1'))):
+    p1 = itu.func('reb_integrator_part1')
+    for sw in walk(cfront.body(p1)):
         if sw.get('kind') == 'CaseStmt':
             lab = [x for x in walk(sw['inner'][0]) if x.get('kind') == 'DeclRefExpr']
             callee = None
@@ -324,6 +329,17 @@ def rule_cache_invalidation(ctx):
                     break
             if lab and callee:
                 disp[lab[0]['referencedDecl']['name']] = callee
+    # the same dispatch written as an if-chain: calls under a path condition `<integrator> == CONSTANT`
+    pcd = pathcond.conditions(p1, nodes=True)
+    for x in walk(cfront.body(p1)):
+        if x.get('kind') == 'CallExpr' and callee_name(x):
+            for c_ in pcd.get(id(x), []):
+                c_ = strip(c_)
+                if c_.get('kind') == 'BinaryOperator' and c_.get('opcode') == '==':
+                    for side in c_['inner']:
+                        side = strip(side, casts=True)
+                        if side.get('kind') == 'DeclRefExpr' and side.get('referencedDecl', {}).get('kind') == 'EnumConstantDecl':
+                            disp.setdefault(side['referencedDecl']['name'], callee_name(x))
     anchor(len(disp) >= 8, 'reb_integrator_part1: switch over the integrators')
     consumers = {}     # flag -> [(enum, safe_mode path, refuses variational)]
     import glob, os
@@ -625,11 +641,32 @@ def rule_exact_finish(ctx, rule='R09.11'):
     ce = tu.func('reb_check_exit')
     short = [e for e in walk(cfront.body(ce)) if cfront.is_assign(e) and render(e['inner'][0]) == 'r.dt']
     anchor(short, 'reb_check_exit shortens r->dt for exact_finish_time')
-    modes = None
+    # the accepted modes: every string the parameter `mode` is compared with, directly or through a named list/dict
+    named = {}
+    for a_ in ast.walk(fn):
+        if isinstance(a_, ast.Assign) and len(a_.targets) == 1 and isinstance(a_.targets[0], ast.Name):
+            named[a_.targets[0].id] = a_.value
+    modes = []
+
+    def strings(node, depth=0):
+        if isinstance(node, ast.Constant) and isinstance(node.value, str):
+            return [node.value]
+        if isinstance(node, (ast.List, ast.Tuple, ast.Set)):
+            return [x for e_ in node.elts for x in strings(e_, depth)]
+        if isinstance(node, ast.Dict):
+            return [x for k_ in node.keys for x in strings(k_, depth)]
+        if isinstance(node, ast.Name) and node.id in named and depth < 3:
+            return strings(named[node.id], depth + 1)
+        if isinstance(node, ast.Call) and node.args and depth < 3:
+            return strings(node.args[0], depth + 1) if not isinstance(node.func, ast.Attribute) else strings(node.func.value, depth + 1)
+        return []
     for c in ast.walk(fn):
-        if isinstance(c, ast.Compare) and isinstance(c.left, ast.Name) and c.left.id == 'mode' and isinstance(c.ops[0], (ast.NotIn, ast.In)):
-            modes = [e.value for e in c.comparators[0].elts if isinstance(e, ast.Constant)]
-    anchor(modes and len(modes) >= 3, 'getSimulation: list of accepted modes')
+        if isinstance(c, ast.Compare) and isinstance(c.left, ast.Name) and c.left.id == 'mode':
+            for cmp_ in c.comparators:
+                for v_ in strings(cmp_):
+                    if v_ not in modes:
+                        modes.append(v_)
+    anchor(len(modes) >= 3, 'getSimulation: accepted modes (strings the mode argument is compared with)')
     subs = {'whfast': 'sim.ri_whfast', 'saba': 'sim.ri_saba'}
     n = 0
     bad = {}
@@ -647,6 +684,8 @@ def rule_exact_finish(ctx, rule='R09.11'):
                 if eft == 0 or integ not in subs:
                     continue
                 keep = snap.get(subs[integ] + '.keep_unsynchronized', pyeval.UNK)
+                if keep is pyeval.UNK:
+                    raise AnalysisError('%s: the value getSimulation stores in %s.keep_unsynchronized (mode=%s) is not a constant the evaluator can follow' % (rule, subs[integ], env['mode']))
                 if keep != 0:
                     bad.setdefault((ln, integ), []).append('mode=%s keep_unsynchronized=%s safe_mode=%s -> exact_finish_time=%s with %s.keep_unsynchronized=%s'
                                                            % (env['mode'], env['keep_unsynchronized'], env[subs[integ] + '.safe_mode'], eft, subs[integ], keep))
